@@ -586,7 +586,7 @@ Proof.
   destruct e as [m|k id|id| | |b| |v|pid|raw]; cbn [step].
   - unfold publish. rewrite <- H1. destruct (Nat.eqb _ 0).
     + unfold same_but_subs. cbn. repeat split; try assumption; congruence.
-    + rewrite !rtmp_loop_spec. rewrite <- H4, <- H5, <- H8, <- H9, <- H10, <- H11, <- H12.
+    + rewrite !rtmp_loop_spec. rewrite <- H4, <- H5, <- H8, <- H9, <- H10, <- H11, <- H12. rewrite <- ?H13, <- ?H16, <- ?H17.
       rewrite <- (anytrig_perm _ _ _ _ Hp).
       set (F1 := fin (g_rtmp_cache s) (is_video_key_nalu m) [] _).
       assert (Hp1 : Permutation (map F1 (g_subs s)) (map F1 (g_subs s'))) by (now apply Permutation_map).
@@ -603,11 +603,12 @@ Proof.
   - destruct (partition_perm (fun x => c_id x =? id) _ _ Hp) as [Pa Pb].
     destruct (partition _ (g_subs s)) as [a bb], (partition _ (g_subs s')) as [a' bb']. cbn [fst snd] in *.
     unfold same_but_subs. cbn. repeat split; try assumption. now apply Permutation_app.
-  - rewrite <- H12. replace (g_in s') with (g_in s). destruct (g_in s) eqn:Hgin; unfold same_but_subs; cbn; repeat split; try assumption; try congruence.
+  - rewrite <- H12, <- H16, <- H17. replace (g_in s') with (g_in s). destruct (g_in s) eqn:Hgin; unfold same_but_subs; cbn; repeat split; try assumption; try congruence.
   - replace (g_in s') with (g_in s). destruct (negb (g_in s)) eqn:Hgin.
     + unfold same_but_subs. repeat split; assumption.
     + destruct (partition_perm (fun x => ckind_eqb (c_kind x) KPush) _ _ Hp) as [Pa Pb].
       destruct (partition _ (g_subs s)) as [a bb], (partition _ (g_subs s')) as [a' bb']. cbn [fst snd] in *.
+      rewrite <- H16, <- H17.
       unfold same_but_subs. cbn. repeat split; try assumption; try congruence. now apply Permutation_app.
   - unfold feed_ts. unfold same_but_subs. cbn. rewrite <- H2, <- H6, <- H7.
     repeat split; try assumption; try congruence. now apply Permutation_map.
